@@ -29,6 +29,36 @@ ASSUMPTIONS = ['hmac/sha crates trusted', 'every CFG path is assumed feasible']
 TS = 'message::tsig::'
 
 
+def tsig_setters(F):
+    """Writer::set_tsig and thin wrappers around it in server::* : {gpath: (index of the mode argument, of the record)}.
+    A wrapper calls set_tsig exactly once, before any other effect on the response, with two of its own parameters."""
+    out = {W + 'set_tsig': (1, 2)}
+    for gp, fn in F.fns.items():
+        if not gp.startswith('server::') or fn.crate != 'quandary':
+            continue
+        cs = calls_in(fn, W + 'set_tsig')
+        if len(cs) != 1:
+            continue
+        b, t = cs[0]
+        m1 = re.match(r'^arg(\d)$', paths.show_operand(fn, t['args'][1]))
+        m2 = re.match(r'^arg(\d)$', paths.show_operand(fn, t['args'][2]))
+        first = all(fn.dominates(b, bb) for bb, tt in fn.calls() if bb != b and mutates_response(fn, tt))
+        if m1 and m2 and first:
+            out[gp] = (int(m1.group(1)) - 1, int(m2.group(1)) - 1)
+    return out
+
+
+def tsig_calls(fn, setters):
+    """[(block, term, mode operand, record operand)] for calls of set_tsig or one of its wrappers."""
+    out = []
+    for b, t in fn.calls():
+        n = callee_name(t)
+        if n in setters and fn.gpath != n and not (fn.gpath in setters and n == W + 'set_tsig'):
+            mi, ri = setters[n]
+            out.append((b, t, t['args'][mi], t['args'][ri]))
+    return out
+
+
 def check(R, F):
     # ---- (a) order in verification_core
     vc = F.fn(TS + "ReadTsigRr::<'_>::verification_core")
@@ -81,19 +111,27 @@ def check(R, F):
         if got and want[2] == 'Response':
             R.require('ReadTsigRr::mac(arg1)' in got[3] and 'arg3' in got[3] and 'arg4' in got[3], 'tsig-table', vt.gpath + '|' + k + '-signed-with-request-mac', vt.where(got[4]), 'signed with the request MAC, the algorithm and the key', 'the signed response mode is built from %s' % got[3])
     R.require(set(rows) == set(spec), 'tsig-table', vt.gpath + '|complete', vt.where(), 'one row per outcome', 'rows %s' % sorted(map(str, rows)))
-    st_ = calls_in(vt, W + 'set_tsig')
+    setters = tsig_setters(F)
+    st_ = tsig_calls(vt, setters)
     sr = calls_in(vt, W + 'set_rcode')
-    R.require(len(st_) == 1 and len(sr) == 1 and 'new_from_read(arg1,arg5,300_u16' in paths.show_operand(vt, st_[0][1]['args'][2]).replace('PreparedTsigRr::', ''), 'tsig-table', vt.gpath + '|writes-rcode-and-tsig', vt.where(), 'set_rcode(rcode) and set_tsig(mode, prepared(error))', 'verify_tsig_and_write_tsig_rr does not write exactly one RCODE and one TSIG RR')
-    rets = [paths.show_operand(vt, t['args'][0]) + '==' + paths.show_operand(vt, t['args'][1]) for b, t in vt.calls() if not t['dest']['p'] and t['dest']['l'] == 0]
-    R.require(len(rets) == 1 and rets[0].endswith('==Rcode(0_u8)'), 'tsig-table', vt.gpath + '|returns-noerror-only', vt.where(), 'returns rcode == NOERROR', 'the function returns %s' % rets)
+    R.require(len(st_) == 1 and len(sr) == 1 and 'new_from_read(arg1,arg5,300_u16' in paths.show_operand(vt, st_[0][3]).replace('PreparedTsigRr::', ''), 'tsig-table', vt.gpath + '|writes-rcode-and-tsig', vt.where(), 'set_rcode(rcode) and set_tsig(mode, prepared(error))', 'verify_tsig_and_write_tsig_rr does not write exactly one RCODE and one TSIG RR')
+    # the result can be true only if rcode == NOERROR: every definition of the return value is `false` or (derives from)
+    # the comparison of the rcode with NOERROR
+    rdefs = [d for d in vt.defs().get(0, []) if not vt.blocks[d[0]]['cleanup']]
+    def ret_ok(d):
+        if d[2] == 'assign' and d[3]['rv']['k'] == 'use' and d[3]['rv']['op']['k'] == 'const':
+            return const_name(d[3]['rv']['op']) == 'false'
+        txt = paths.show_operand(vt, d[3]['rv']['op']) if d[2] == 'assign' and d[3]['rv']['k'] == 'use' else (callee_name(d[3]) + '(' + ','.join(paths.show_operand(vt, a) for a in d[3]['args']) + ')' if d[2] == 'call' else '?')
+        return re.search(r'Rcode(?: as std::cmp::PartialEq>)?::eq\(.*Rcode\(0_u8\)\)', txt) is not None
+    R.require(bool(rdefs) and all(ret_ok(d) for d in rdefs) and any(not (d[2] == 'assign' and d[3]['rv']['k'] == 'use' and d[3]['rv']['op']['k'] == 'const') for d in rdefs), 'tsig-table', vt.gpath + '|returns-noerror-only', vt.where(), 'returns true only when rcode == NOERROR', 'the function can return true without rcode == NOERROR')
     for name, what in (('server::find_tsig_algorithm_or_write_error', 'unknown-algorithm'), ('server::find_tsig_key_or_write_error', 'unknown-key')):
         fn = F.fn(name)
         rc = [(b, t) for b, t in calls_in(fn, W + 'set_rcode')]
-        stc = calls_in(fn, W + 'set_tsig')
+        stc = tsig_calls(fn, setters)
         ok = len(rc) == 1 and const_name(rc[0][1]['args'][1]).endswith('Rcode(9_u8)') and len(stc) == 1
         if ok:
-            mode = paths.show_operand(fn, stc[0][1]['args'][1])
-            prep = paths.show_operand(fn, stc[0][1]['args'][2])
+            mode = paths.show_operand(fn, stc[0][2])
+            prep = paths.show_operand(fn, stc[0][3])
             ok = mode.startswith('TsigMode::Unsigned') and 'ExtendedRcode(17_u16)' in prep
             nones = [b for b, bl in enumerate(fn.blocks) for s2 in bl['stmts'] if s2['k'] == 'assign' and s2['lhs']['l'] == 0 and s2['rv']['k'] == 'agg' and s2['rv']['def'].endswith('Option::None')]
             ok = ok and len(nones) == 1 and fn.dominates(stc[0][0], nones[0])
